@@ -228,6 +228,14 @@ class Built:
                 elif k == "pre":
                     o.add_pretasks(*[self.allobjs[i] for i in op["ids"]])
                     out.append("ok")
+                elif k == "preappend":
+                    # the other way to the pre-task list: the list handed out by the pre_tasks property
+                    o.pre_tasks.append(*[self.allobjs[i] for i in op["ids"]])
+                    out.append("ok")
+                elif k == "copydeps":
+                    # copy_dependencies(other) sets the task mark of o (part of its identity) from other's
+                    o.copy_dependencies(self.allobjs[op["other"]])
+                    out.append("ok")
                 elif k == "prefrom":
                     # add_pretasks_from(donor): the pre-tasks the donor holds at this moment are added
                     idx = {id(x): j for j, x in enumerate(self.allobjs)}
